@@ -521,9 +521,6 @@ Proof.
   all: cbn [is_some negb]; rewrite andb_false_r; reflexivity.
 Qed.
 
-Definition cfg3 : rcfg :=
-  [(FReq, mkTag Univ false 2%N); (FReq, mkTag Ctx false 0%N); (FReq, mkTag Ctx false 1%N)].
-
 Theorem ch_reads_inert_refuted :
   exists ops o, rec_reader o = true /\ cabs (fst (ch_run cfg3 ch_init ops)) = Some (1, Some 5%Z) /\ cabs (fst (ch_step cfg3 (fst (ch_run cfg3 ch_init ops)) o)) = Some (2, None) /\ f18a cfg3 (cabs (fst (ch_run cfg3 ch_init ops))) o = true.
 Proof. exists [RSetItem (KName 1) (PInt 5)], (RGetItem (KName 2)). repeat split. Qed.
